@@ -19,6 +19,8 @@ func stringify(v *Val, inProcess util.PtrSet) string {
 			return fmt.Sprintf("recursive-val %s@%p", v.Type, v)
 		} else {
 			inProcess.Add(v)
+			// 只在当前路径上检测循环, 同一个值出现在不同位置不是递归
+			defer inProcess.Remove(v)
 		}
 	}
 
